@@ -496,7 +496,7 @@ def run_both(bdir, cases, tag, shards=None, timeout=3600, model=True, keys=None,
     return result
 
 
-PREFIX = {'GRAPH': 'G', 'UPD': 'U', 'E2E': 'E', 'LAYOUT': 'L', 'WAFF': 'W', 'RNG': 'R', 'PARSE': 'P', 'RAFF': 'A', 'RESIZE': 'Z', 'WMEM': 'M', 'WAFV': 'V'}
+PREFIX = {'GRAPH': 'G', 'UPD': 'U', 'E2E': 'E', 'LAYOUT': 'L', 'WAFF': 'W', 'RNG': 'R', 'PARSE': 'P', 'RAFF': 'A', 'RESIZE': 'Z', 'WMEM': 'M', 'WAFV': 'V', 'SRUN': 'S'}
 
 
 def case_id(line):
